@@ -262,6 +262,137 @@ VarNe(a, b) == Pure(a # b)
 VarLess(a, b) ==
   Pure(IF Bug = "var_less_value_only" THEN a.v < b.v ELSE a.t < b.t \/ (a.t = b.t /\ a.v < b.v))
 
+(* ================================================================== extension round
+   The rest of the optional / either / variant / monad API.
+
+   References.  fcppt::optional::reference<T> is optional<fcppt::reference<T>>: it does not own the
+   object.  A store is a sequence of cells <<v_1, ..., v_n>>; a reference (and a non-null pointer) is
+   the index of a cell, the null pointer is 0; Ref(i) = [ref |-> i]. *)
+Ref(i) == [ref |-> i]
+
+\* from_pointer: "If _pointer is the null pointer, the result will be empty. Otherwise, the result
+\* will contain a reference to *_pointer."
+OptFromPointer(p) ==
+  Pure(IF p = 0 THEN (IF Bug = "from_pointer_null_some" THEN Some(Ref(1)) ELSE None) ELSE Some(Ref(p)))
+\* to_pointer: "If _optional is empty, returns nullptr. Otherwise, returns the address of the
+\* referenced object of _optional."
+OptToPointer(o) == Pure(IF IsSome(o) THEN o.v.ref ELSE 0)
+\* copy_value: "Copies the value of an optional reference"
+OptCopyValue(store, o) ==
+  Pure(IF IsSome(o) THEN Some(IF Bug = "copy_value_first_cell" THEN store[1] ELSE store[o.v.ref]) ELSE None)
+\* deref: "If the optional is set to x, make_(c)ref(*x) is returned."  (x = a pointer-like value
+\* designating a cell)
+OptDeref(o) == Pure(IF IsSome(o) THEN Some(Ref(o.v)) ELSE None)
+\* optional_reference section of optional.doxygen: "if an optional holds a reference it does not hold
+\* the actual object, so changing the object behind the reference ... has different semantics":
+\* writing through an optional reference changes the referenced cell of the store and nothing else;
+OptRefWrite(store, o, y) == Pure(IF IsSome(o) THEN [store EXCEPT ![o.v.ref] = y] ELSE store)
+\* whereas an optional<T> holds its own copy: writing to a copy leaves the original alone
+\* (result = <<original, modified copy>>)
+OptValueCopyWrite(o, y) == Pure(<<o, IF IsSome(o) THEN Some(y) ELSE None>>)
+\* assign: "Assigns _arg to _optional and returns a reference to _arg."  The harness then writes y
+\* through the returned reference: result = [ret (value seen through the reference right after the
+\* assignment), opt (the optional after the write)]
+OptAssign(o, x, y) ==
+  Pure([ret |-> x, opt |-> IF Bug = "assign_returns_copy" THEN Some(x) ELSE Some(y)])
+\* nothing: "Objects of this class implicitly convert into empty fcppt::optional::object."
+OptNothing == Pure(None)
+\* make: "Wraps a value into an optional."
+OptMake(x) == Pure(Some(x))
+\* to_exception: "If _optional is set to x, then x is returned. Otherwise, the result of
+\* _make_exception is thrown as an exception."  (e = the value carried by the exception made)
+Ret(x) == [t |-> "ret", v |-> x]
+Thrown(e) == [t |-> "throw", v |-> e]
+OptToException(o, e) ==
+  IF IsSome(o) /\ Bug # "to_exception_always_throws" THEN Pure(Ret(o.v)) ELSE R(Thrown(e), <<Call("mk", 0, <<>>)>>)
+
+\* output.hpp (optional): N for nothing, "J " followed by the value otherwise; either and variant
+\* output the held value.  Texts are sequences of code points; an element of D prints as its digit.
+ShowD(x) == <<48 + x>>
+ShowOpt(o) == IF IsSome(o) THEN (IF Bug = "output_no_space" THEN <<74>> ELSE <<74, 32>>) \o ShowD(o.v) ELSE <<78>>
+ShowOptOpt(oo) == IF IsSome(oo) THEN <<74, 32>> \o ShowOpt(oo.v) ELSE <<78>>
+OptOutput(o) == Pure(ShowOpt(o))
+OptOptOutput(oo) == Pure(ShowOptOpt(oo))
+EitOutput(e) == Pure(ShowD(e.v))
+VarOutput(v) == Pure(ShowD(v.v))
+
+\* either::construct: "If _value is true then _success() is returned. Otherwise, _failure() is
+\* returned."
+EitConstruct(b, s, f) ==
+  IF b = (Bug # "construct_inverted") THEN R(Succ(s), <<Call("s", 0, <<>>)>>) ELSE R(Fail(f), <<Call("f", 0, <<>>)>>)
+\* error_from_optional: "If _optional is set to x, then x is returned as the failure value."
+\* (otherwise success of no_error = fcppt::unit, modelled as 0)
+EitErrorFromOptional(o) == Pure(IF IsSome(o) THEN Fail(o.v) ELSE Succ(0))
+\* make_success / make_failure: "Create an either with a success / failure."
+EitMakeSuccess(x) == Pure(Succ(x))
+EitMakeFailure(x) == Pure(IF Bug = "make_failure_is_success" THEN Succ(x) ELSE Fail(x))
+\* either::to_exception: "If _either is set to success s, then s is returned. Otherwise, _either is
+\* set to failure f and the result of _make_exception(f) is thrown as an exception."
+EitToException(e, mk) ==
+  IF IsSucc(e) THEN Pure(Ret(e.v)) ELSE R(Thrown(Ap1(mk, e.v)), <<Call("mk", 0, <<e.v>>)>>)
+\* sequence_error: "The algorithms calls _function(x_1), ..., _function(x_i), where _function(x_i)
+\* is either the first call that returns a failure, in which case the failure is returned as the
+\* result, or i=n, in which case success is returned."   f : D -> Either(F, unit)
+EitSequenceError(xs, f) ==
+  LET fails == {i \in DOMAIN xs : IsFail(Ap1(f, xs[i]))}
+      last == IF fails = {} \/ Bug = "sequence_error_continues" THEN Len(xs) ELSE Min(fails)
+  IN R(IF fails = {} THEN Succ(0) ELSE Ap1(f, xs[Min(fails)]),
+       [i \in 1..last |-> Call("f", 0, <<xs[i]>>)])
+
+\* variant assignment (holds_type.hpp: "The currently held type of a variant is the type passed to
+\* its constructor or assignment operator"): after v = w the variant equals w; the source of a
+\* move keeps its alternative (object_decl.hpp, is_invalid: "This can only happen if an assignment
+\* of a different type throws an exception" - so a moved-from variant is never invalid).
+\* res = [dst (the target after the assignment), src_t (index held by the source afterwards)]
+VarAssign(v, w) ==
+  Pure([dst |-> IF Bug = "assign_keeps_index" THEN Var(v.t, w.v) ELSE w, src_t |-> w.t])
+\* to_optional_ref + write through the reference: changes the held value iff the type is held
+VarRefWrite(i, v, y) == Pure(IF v.t = i THEN Var(i, y) ELSE v)
+\* dynamic_cast_: "tries to cast _base to T_1 first. If this fails, it tries to cast _base to T_2, and
+\* so on. The result of the first cast that succeeds is returned."  types = the class ids T_1..T_n,
+\* castable = the set of class ids the dynamic type of _base can be cast to; the result holds
+\* alternative i = position of the first castable type (its value, a reference to the object, is 1)
+VarDynamicCast(types, castable) ==
+  LET ok == {i \in DOMAIN types : types[i] \in castable} IN
+  Pure(IF ok = {} THEN None
+       ELSE Some(Var(IF Bug = "dynamic_cast_last" THEN CHOOSE m \in ok : \A k \in ok : k <= m ELSE Min(ok), 1)))
+
+\* monad::return_: optional::make / either::make_success
+MonadReturnOpt(x) == Pure(Some(x))
+MonadReturnEit(x) == Pure(Succ(x))
+\* monad::chain: "Calls bind(... bind(bind(_value,l_1),l_2) ... ,l_n)."  The i-th lambda is
+\* continuation ("f", i).
+ReIndex(calls, i) == [j \in DOMAIN calls |-> Call(calls[j].fn, i, calls[j].args)]
+RECURSIVE OptChainFrom(_, _, _), EitChainFrom(_, _, _)
+OptChainFrom(r, ks, i) ==
+  IF i > Len(ks) THEN r
+  ELSE LET b == OptBind(r.res, ks[i]) IN
+       IF Bug = "chain_skips_second" /\ i = 2 THEN OptChainFrom(r, ks, i + 1)
+       ELSE OptChainFrom(R(b.res, r.calls \o ReIndex(b.calls, i)), ks, i + 1)
+OptChain(o, ks) == OptChainFrom(Pure(o), ks, 1)
+EitChainFrom(r, ks, i) ==
+  IF i > Len(ks) THEN r
+  ELSE LET b == EitBind(r.res, ks[i]) IN EitChainFrom(R(b.res, r.calls \o ReIndex(b.calls, i)), ks, i + 1)
+EitChain(e, ks) == EitChainFrom(Pure(e), ks, 1)
+\* monad::do_ (do-notation): the k-th lambda receives the values bound so far (v_1..v_k) and returns
+\* the next monadic value; the result is the last lambda's result; nothing / failure ends the block.
+\* ls[k] is a k-ary table.
+RECURSIVE OptDoFrom(_, _, _, _), EitDoFrom(_, _, _, _)
+OptDoFrom(m, vals, ls, k) ==
+  IF k > Len(ls) THEN Pure(m)
+  ELSE IF ~IsSome(m) THEN Pure(None)
+  ELSE LET vs == Append(vals, m.v)
+           rest == OptDoFrom(ApN(ls[k], IF Bug = "do_drops_first" /\ k = 2 THEN <<vs[2], vs[2]>> ELSE vs), vs, ls, k + 1)
+       IN R(rest.res, <<Call("f", k, vs)>> \o rest.calls)
+OptDo(o, ls) == OptDoFrom(o, <<>>, ls, 1)
+EitDoFrom(m, vals, ls, k) ==
+  IF k > Len(ls) THEN Pure(m)
+  ELSE IF IsFail(m) THEN Pure(m)
+  ELSE LET vs == Append(vals, m.v)
+           rest == EitDoFrom(ApN(ls[k], vs), vs, ls, k + 1)
+       IN R(rest.res, <<Call("f", k, vs)>> \o rest.calls)
+EitDo(e, ls) == EitDoFrom(e, <<>>, ls, 1)
+
 (* ------------------------------------------------------------------ comparing call logs *)
 
 SameCall(a, b) == a.fn = b.fn /\ a.i = b.i /\ a.args = b.args
